@@ -17,13 +17,31 @@ the sums that carry twice. -/
 theorem checksum_verifies (e : Echo) (typeId : Nat) (ht : typeId < 256) (hid : e.id < 65536)
     (hseq : e.seq < 65536) (hd : BytesWF e.data) (hl : e.data.length ≤ 65535) :
     verifies (e.serialize typeId) = true := by
-  sorry
+  have _ := hid; have _ := hseq  -- (`u16be` truncates, so the bounds are not needed)
+  have hwf : BytesWF (e.serialize0 typeId) := by
+    intro x hx
+    simp only [Echo.serialize0, u16be, List.mem_cons, List.cons_append, List.nil_append] at hx
+    rcases hx with h | h | h | h | h | h | h | h | h
+    any_goals omega
+    exact hd x h
+  have hlen : (e.serialize0 typeId).length ≤ 131070 := by
+    simp [Echo.serialize0, u16be]; omega
+  have hS := sumWords32_exact _ hwf hlen
+  simp only [verifies, Echo.serialize, checksum, hS, beq_iff_eq]
+  generalize hS' : sumWords (e.serialize0 typeId) = S
+  have h1 := fold16_mod S
+  have h2 := fold16_lt S
+  have h3 := fold16_le S
+  generalize fold16 S = f at *
+  rw [sumWords_hdr _ _ _ (by omega)]
+  rw [Echo.serialize0, sumWords_hdr0] at hS'
+  apply fold16_eq_ffff <;> omega
 
 /-- the wrapping `u32` accumulation of the Rust loop never wraps on such packets, so the model's
 unbounded sum is what the code computes -/
 theorem sum32_exact (bs : Bytes) (hw : BytesWF bs) (hl : bs.length ≤ 131070) :
     sumWords32 bs 0 = sumWords bs := by
-  sorry
+  exact sumWords32_exact bs hw hl
 
 /-- a payload whose plain sum carries twice (the pre-fix single fold failed on it) -/
 example : verifies (Echo.serialize ⟨0, 0xffff, 0xffff, [0xf7, 0xff, 0x00, 0x01]⟩ 8) = true := by decide +kernel
@@ -47,7 +65,26 @@ def Request.WF (r : Request) : Prop :=
 record are exactly what the client encoded -/
 theorem request_fields_faithful (r : Request) (h : r.WF) (rest : Bytes) :
     parseRequest (encodeRequest r ++ rest) = .ok r := by
-  sorry
+  obtain ⟨id, dest, seq, ttl, sz⟩ := r
+  obtain ⟨h1, h2, h3, h4, h5⟩ := h
+  simp only at h1 h2 h3 h4 h5
+  cases dest with
+  | v4 a b c d =>
+    simp only [encodeRequest, putFixedIp, u16be, parseRequest, getU16, getFixedIp, splitTo, getU8,
+      List.cons_append, List.nil_append, List.length_cons, List.take, List.drop, fixedIpOf]
+    simp
+    omega
+  | v6 x =>
+    obtain ⟨s0, s1, s2, s3, s4, s5, s6, s7⟩ := x
+    simp only at h5
+    simp only [encodeRequest, putFixedIp, u16be, parseRequest, getU16, getFixedIp, splitTo, getU8,
+      List.cons_append, List.nil_append, List.length_cons, List.take, List.drop, fixedIpOf]
+    simp
+    obtain ⟨g0, g1, g2, g3, g4, g5, g6, g7, g8⟩ := h5
+    refine ⟨by omega, ?_, by omega, by omega⟩
+    rw [if_neg (by omega)]
+    simp only [u16be_sum _ g0, u16be_sum _ g1, u16be_sum _ g2, u16be_sum _ g3, u16be_sum _ g4,
+      u16be_sum _ g5, u16be_sum _ g6, u16be_sum _ g7]
 
 /-- the echo type follows the destination family -/
 theorem request_type (r : Request) : requestType r = (match r.dest with | .v4 .. => 8 | .v6 _ => 128) := by
@@ -59,7 +96,7 @@ theorem decoder_step_safe (buffer chunk : Bytes) (hb : buffer.length < reqSize) 
     (∃ b', onMessageChunk buffer chunk = .wantMore b' ∧ b' = buffer ++ chunk ∧ b'.length < reqSize) ∨
     (∃ raw tail, onMessageChunk buffer chunk = .complete raw tail ∧ raw.length = reqSize ∧
         buffer ++ chunk = raw ++ tail) := by
-  sorry
+  exact decoder_step_safe_lem buffer chunk hb
 
 /-- **Segmentation invariance**: for every split of the stream into chunks, the requests decoded
 through the re-queueing glue are exactly the consecutive 23-byte records of the concatenation,
@@ -69,32 +106,96 @@ theorem request_decode_segmentation (chunks : List Bytes) (fuel : Nat)
     decodeStream fuel [] chunks [] =
       some (specDecode (chunks.flatten.length + 1) chunks.flatten,
             chunks.flatten.drop (reqSize * (chunks.flatten.length / reqSize))) := by
-  sorry
+  have := decodeStream_gen fuel [] chunks [] (chunks.flatten.length + 1) (by simp) (by omega)
+    (by simp only [List.nil_append]; omega)
+  simp only [List.nil_append, List.reverse_nil] at this
+  exact this
 
 /-- and the record-level spec returns the encoded requests, in order -/
 theorem spec_decode_encode (rs : List Request) (h : ∀ r ∈ rs, r.WF) (fuel : Nat) (hf : fuel ≥ rs.length + 1) :
     specDecode fuel (rs.map encodeRequest).flatten = rs := by
-  sorry
+  induction rs generalizing fuel with
+  | nil => simpa using specDecode_short fuel [] (by simp)
+  | cons r rs ih =>
+    obtain ⟨F, rfl⟩ : ∃ F, fuel = F + 1 := ⟨fuel - 1, by simp at hf; omega⟩
+    have hlen : (encodeRequest r).length = 23 := by
+      cases hd : r.dest <;> simp [encodeRequest, putFixedIp, u16be, hd]
+    have hp : parseRequest (encodeRequest r) = .ok r := by
+      simpa using request_fields_faithful r (h r (by simp)) []
+    rw [List.map_cons, List.flatten_cons, specDecode_long _ _ _ _ hlen hp,
+      ih (fun x hx => h x (by simp [hx])) F (by simp at hf; omega)]
 
 /-! ### parsers of network input never panic (shared with C09) -/
 
 theorem skipIpv4_no_panic (p : Bytes) : (skipIpv4Header p).isOk = true := by
-  sorry
+  unfold skipIpv4Header
+  by_cases h : p.length < 20
+  · simp [h, Res.isOk]
+  · rw [if_neg h]
+    obtain ⟨x, hx⟩ := getU8_ok p (by omega)
+    rw [hx]; dsimp only
+    split
+    · rfl
+    · next hc =>
+      simp only [Bool.or_eq_true, decide_eq_true_eq, not_or, Nat.not_lt, List.length_drop] at hc
+      rw [advance_ok 8 _ (by rw [List.length_drop]; omega)]; dsimp only
+      obtain ⟨y, hy⟩ := getU8_ok ((p.drop 1).drop 8) (by simp only [List.length_drop]; omega)
+      rw [hy]; dsimp only
+      rw [advance_ok _ _ (by simp only [List.length_drop]; omega)]
+      rfl
 
 theorem skipIpv6_no_panic (p : Bytes) : (skipIpv6Header p).isOk = true := by
-  sorry
+  unfold skipIpv6Header
+  split
+  · rfl
+  · next h =>
+    rw [advance_ok _ _ (by omega)]; dsimp only
+    obtain ⟨a, ha⟩ := getU8_ok (p.drop 6) (by simp only [List.length_drop]; omega)
+    rw [ha]; dsimp only
+    rw [advance_ok _ _ (by simp only [List.length_drop]; omega)]
+    exact skipIpv6Ext_no_panic _ _ _
 
 theorem deserializeV4_no_panic (p : Bytes) : deserializeV4 p ≠ .panic := by
-  sorry
+  unfold deserializeV4
+  cases p with
+  | nil => simp
+  | cons t p =>
+    dsimp only
+    repeat' refine ite_ne_panic (fun _ => ?_) (fun _ => ?_)
+    all_goals first
+      | (intro h; cases h; done)
+      | exact afterType_ne_panic p _ 4 (by omega) (fun c q hq => parseEcho_ne_panic _ _ _ hq)
+      | exact afterType_ne_panic p _ 4 (by omega) (fun c q hq => parseErr_ne_panic _ _ _ _ hq)
+      | exact afterType_ne_panic p _ 16 (by simp at *; omega) (fun c q hq => parseTimestamp_ne_panic _ _ _ hq)
+      | exact afterType_ne_panic p _ 4 (by simp at *; omega) (fun c q hq => parseInformation_ne_panic _ _ _ hq)
 
 theorem deserializeV6_no_panic (p : Bytes) : deserializeV6 p ≠ .panic := by
-  sorry
+  unfold deserializeV6
+  cases p with
+  | nil => simp
+  | cons t p =>
+    dsimp only
+    repeat' refine ite_ne_panic (fun _ => ?_) (fun _ => ?_)
+    all_goals first
+      | (intro h; cases h; done)
+      | exact afterType_ne_panic p _ 4 (by omega) (fun c q hq => parseEcho_ne_panic _ _ _ hq)
+      | exact afterType_ne_panic p _ 4 (by omega) (fun c q hq => parseErr_ne_panic _ _ _ _ hq)
 
 theorem respondedV4_no_panic (m : Msg) : respondedV4 m ≠ .panic := by
-  sorry
+  unfold respondedV4
+  split
+  · simp
+  · simp
+  · exact quotedEcho_ne_panic _ (skipIpv4_no_panic _) _ _
+  · simp
 
 theorem respondedV6_no_panic (m : Msg) : respondedV6 m ≠ .panic := by
-  sorry
+  unfold respondedV6
+  split
+  · simp
+  · simp
+  · exact quotedEcho_ne_panic _ (skipIpv6_no_panic _) _ _
+  · simp
 
 /-! ### replies and quoting errors designate the request -/
 
@@ -109,7 +210,13 @@ theorem v4_error_designates (t c : Nat) (hdr : Bytes) (e : Echo) (q : Bytes)
     (hid : e.id < 65536) (hseq : e.seq < 65536)
     (hq : q = 8 :: 0 :: 0 :: 0 :: (u16be e.id ++ u16be e.seq ++ e.data)) :
     respondedV4 (.err t c (hdr ++ q)) = .some ⟨0, e.id, e.seq, e.data⟩ := by
-  sorry
+  match hdr, hh, h0, hp with
+  | [a0, a1, a2, a3, a4, a5, a6, a7, a8, a9, a10, a11, a12, a13, a14, a15, a16, a17, a18, a19], _, h0, hp =>
+    simp at h0 hp
+    subst h0 hp hq
+    simp only [respondedV4, skipIpv4_plain, quotedEcho]
+    simp [afterType, getU8, splitOff, parseEcho, getU16, u16be]
+    rw [if_neg (by omega), u16be_sum _ hid, u16be_sum _ hseq]
 
 /-- 7.4 format: identifier, 16-byte responder address, type, code, sequence number -/
 theorem reply_format (v6 : Bool) (peer : Ip.Ip) (m : Msg) (e : Echo)
@@ -135,11 +242,24 @@ key matches the extracted request; with no matching waiter nothing is reported. 
 theorem recv_reports_only_requester (t : Table) (req : Echo) (full : Bool) (c : Nat)
     (h : (t.recv req full).2 = some c) :
     ∃ w ∈ t.waiters, echoKeyEq w.key req = true ∧ w.client = c := by
-  sorry
+  unfold Table.recv at h
+  split at h
+  · simp at h
+  · next w hw =>
+    split at h
+    · simp at h
+    · simp only [Option.some.injEq] at h
+      exact ⟨w, List.mem_of_find?_eq_some hw, List.find?_some (p := fun w : Waiter => echoKeyEq w.key req) hw, h⟩
 
 theorem recv_unmatched_silent (t : Table) (req : Echo) (full : Bool)
     (h : ∀ w ∈ t.waiters, echoKeyEq w.key req = false) : (t.recv req full).2 = none := by
-  sorry
+  unfold Table.recv
+  split
+  · rfl
+  · next w hw =>
+    have := h w (List.mem_of_find?_eq_some hw)
+    have h2 : echoKeyEq w.key req = true := List.find?_some (p := fun w : Waiter => echoKeyEq w.key req) hw
+    simp [this] at h2
 
 /-- **Late packets are dropped / waiters are forgotten**: after a sweep at `now`, no waiter whose
 own deadline entry has passed remains, provided each waiter still has its deadline entry
@@ -151,11 +271,61 @@ theorem sched_init : (({} : Table)).Sched := by
   intro w hw; cases hw
 
 theorem sched_step (timeout : Nat) (t : Table) (op : Op) (h : t.Sched) : (t.step timeout op).Sched := by
-  sorry
+  cases op with
+  | send c e now =>
+    intro w hw
+    simp only [Table.step, Table.send] at hw ⊢
+    split at hw
+    · rw [List.mem_map] at hw
+      obtain ⟨w0, hw0, rfl⟩ := hw
+      split
+      · next hk => exact ⟨(now + timeout, e), by simp, Nat.le_refl _, hk⟩
+      · obtain ⟨d, hd, h1, h2⟩ := h w0 hw0
+        exact ⟨d, by simp [hd], h1, h2⟩
+    · rw [List.mem_append] at hw
+      rcases hw with hw | hw
+      · obtain ⟨d, hd, h1, h2⟩ := h w hw
+        exact ⟨d, by simp [hd], h1, h2⟩
+      · simp only [List.mem_singleton] at hw
+        subst hw
+        exact ⟨(now + timeout, e), by simp, Nat.le_refl _, echoKeyEq_refl e⟩
+  | recv req full =>
+    intro w hw
+    obtain ⟨h1, h2⟩ := recv_fst t req full
+    simp only [Table.step] at hw ⊢
+    rw [h1]
+    exact h w (h2 w hw)
+  | tick now =>
+    intro w hw
+    simp only [Table.step, Table.tick] at hw ⊢
+    rw [List.mem_filter] at hw
+    obtain ⟨hw1, hw2⟩ := hw
+    obtain ⟨d, hd, h1, h2⟩ := h w hw1
+    refine ⟨d, ?_, h1, h2⟩
+    rw [List.mem_filter]
+    refine ⟨hd, ?_⟩
+    by_cases hdn : d.1 ≤ now
+    · exfalso
+      have : (t.deadlines.filter (fun d => d.1 ≤ now)).any (fun d => echoKeyEq w.key d.2) = true := by
+        rw [List.any_eq_true]
+        exact ⟨d, List.mem_filter.mpr ⟨hd, by simpa using hdn⟩, h2⟩
+      simp [this] at hw2
+    · simpa using hdn
 
 theorem tick_forgets (t : Table) (now : Nat) (h : t.Sched) :
     ∀ w ∈ (t.tick now).waiters, now < w.deadline := by
-  sorry
+  intro w hw
+  simp only [Table.tick] at hw
+  rw [List.mem_filter] at hw
+  obtain ⟨hw1, hw2⟩ := hw
+  obtain ⟨d, hd, h1, h2⟩ := h w hw1
+  by_cases hdn : d.1 ≤ now
+  · exfalso
+    have : (t.deadlines.filter (fun d => d.1 ≤ now)).any (fun d => echoKeyEq w.key d.2) = true := by
+      rw [List.any_eq_true]
+      exact ⟨d, List.mem_filter.mpr ⟨hd, by simpa using hdn⟩, h2⟩
+    simp [this] at hw2
+  · omega
 
 /-- **Bounded table**: the table never holds more waiters than echo requests were sent, and (with
 `tick_forgets`) after a sweep at `now` only requests (re)scheduled within the last `timeout`
@@ -167,9 +337,33 @@ def countSends : List Op → Nat
 
 theorem waiters_le_sends (timeout : Nat) (ops : List Op) :
     (ops.foldl (Table.step timeout) {}).waiters.length ≤ countSends ops := by
-  sorry
+  have gen : ∀ (ops : List Op) (t : Table),
+      (ops.foldl (Table.step timeout) t).waiters.length ≤ t.waiters.length + countSends ops := by
+    intro ops
+    induction ops with
+    | nil => intro t; simp [countSends]
+    | cons op ops ih =>
+      intro t
+      rw [List.foldl_cons]
+      have h1 := ih (t.step timeout op)
+      cases op with
+      | send c e now =>
+        have h2 := send_waiters_le t c e now timeout
+        simp only [Table.step, countSends] at h1 ⊢; omega
+      | recv req full =>
+        have h2 := recv_waiters_le t req full
+        simp only [Table.step, countSends] at h1 ⊢; omega
+      | tick now =>
+        have h2 := tick_waiters_le t now
+        simp only [Table.step, countSends] at h1 ⊢; omega
+  simpa using gen ops {}
 
 theorem tick_deadlines (t : Table) (now : Nat) : ∀ d ∈ (t.tick now).deadlines, now < d.1 := by
-  sorry
+  intro d hd
+  simp only [Table.tick] at hd
+  rw [List.mem_filter] at hd
+  have := hd.2
+  simp at this
+  omega
 
 end TT.Icmp
